@@ -689,6 +689,15 @@ func av1ResyncCase(c *Case, pre [][]byte, fr [][]byte) {
 }
 
 func genAV1Resync(x *Ctx) {
+	// DESIGN §7-style literals first (short lines also serve as evidence samples)
+	x.Case(func(c *Case) {
+		c.Tag("abandoned-fragment")
+		av1ResyncCase(c, [][]byte{{0x50, 0x30, 0x01, 0x02, 0x03}}, [][]byte{{0x10, 0x30, 0x04, 0x05}})
+	})
+	x.Case(func(c *Case) {
+		c.Tag("abandoned-fragment")
+		av1ResyncCase(c, [][]byte{{0x50, 0x30, 0x01}, {0xd0, 0x02}}, [][]byte{{0x50, 0x30, 0x04}, {0x90, 0x05}})
+	})
 	// every delivery subset of an earlier frame of up to 10 packets (quick: up to 7), then an intact frame
 	for i, n := 0, x.N(60, 1500); i < n; i++ {
 		var a, b [][]byte
@@ -978,6 +987,15 @@ func genAV1C09(x *Ctx) {
 			all = append(all, []byte{byte(a), byte(b)})
 		}
 	}
+	// DESIGN §7 row 11 first (short lines also serve as evidence samples)
+	x.Case(func(c *Case) {
+		c.Tag("literal")
+		av1DepHist(c, [][]byte{{0x50, 0x30, 0x01, 0x02, 0x03}, {0x90, 0x04, 0x05}})
+	})
+	x.Case(func(c *Case) {
+		c.Tag("literal")
+		av1DepHist(c, [][]byte{nil, {}, {0x10}, {0x10, 0x30}, {0x18, 0x0a, 0x00}})
+	})
 	const run = 32
 	for i := 0; i < len(all); i += run {
 		j := i + run
@@ -1115,6 +1133,14 @@ func genAV1C09Pkt(x *Ctx) {
 			all = append(all, []byte{byte(a), byte(b)})
 		}
 	}
+	x.Case(func(c *Case) {
+		c.Tag("literal")
+		av1PktHist(c, false, [][]byte{{0x50, 0x30, 0x01, 0x02, 0x03}, {0x90, 0x04, 0x05}})
+	})
+	x.Case(func(c *Case) {
+		c.Tag("literal")
+		av1PktHist(c, true, [][]byte{nil, {}, {0x10}, {0x10, 0x30}, {0x20, 0x01, 0x0a, 0x30, 0x01}})
+	})
 	const run = 32
 	for i := 0; i < len(all); i += run {
 		j := i + run
